@@ -904,6 +904,7 @@ func (in *Interp) bigBytesLen(x *bigBytes) value {
 
 type hashState struct {
 	parts []*smt.Term
+	marks []hashMark // opaque parts (intr_opaque.go)
 }
 
 type hashApp struct {
@@ -918,6 +919,9 @@ var hashNamed = types.NewNamed(types.NewTypeName(token.NoPos, nil, "gosymHash", 
 func (in *Interp) hashType() types.Type { return hashNamed }
 
 func (in *Interp) hashWrite(h *hashState, v value) {
+	if in.hashWriteOpaque(h, v) {
+		return
+	}
 	h.parts = append(h.parts, in.byteTerms(v)...)
 }
 
@@ -925,6 +929,16 @@ func (in *Interp) hashMethod(h *hashState, name string, args []value) value {
 	intB := basicOf(types.Typ[types.Int])
 	switch name {
 	case "Write":
+		if os, isOpq := args[0].(*opaqueSlice); isOpq {
+			in.hashWrite(h, args[0])
+			return tuple{os.n, iface{}}
+		}
+		if bb, isBig := args[0].(*bigBytes); isBig && !bb.t.IsConst() {
+			in.hashWrite(h, args[0])
+			n := in.nondetInt("$hash.write.n", intB) // number of bytes written: value never used by callers
+			in.addLemma(in.cmpGE0(n))
+			return tuple{n, iface{}}
+		}
 		n := len(in.byteTerms(args[0]))
 		in.hashWrite(h, args[0])
 		return tuple{in.intConst(intB, big.NewInt(int64(n))), iface{}}
@@ -933,6 +947,7 @@ func (in *Interp) hashMethod(h *hashState, name string, args []value) value {
 		base := in.materialize(args[0])
 		return append(base, d...)
 	case "Reset":
+		h.marks = nil
 		h.parts = nil
 		return nil
 	case "Size":
@@ -946,6 +961,9 @@ func (in *Interp) hashMethod(h *hashState, name string, args []value) value {
 
 func (in *Interp) hashSum(h *hashState) sliceV {
 	c := in.ctx
+	if len(h.marks) > 0 {
+		return in.hashSumOpaque(h)
+	}
 	n := len(h.parts)
 	allConst := true
 	for _, p := range h.parts {
